@@ -929,7 +929,7 @@ class TT():
         if isinstance(other, int) or isinstance(other, float) or tn.is_tensor(other):
             # divide by a scalar
             cores_new = self.cores.copy()
-            cores_new[0] /= other
+            cores_new[0] = cores_new[0] / other
             result = TT(cores_new)
         elif isinstance(other, TT):
             if self.__is_ttm != other.is_ttm:
